@@ -222,6 +222,7 @@ type c04Conn struct {
 	wfaultAt int  // -1: none; else the k-th (0-based) data Write of the query phase fails
 	wfaultN  int  // bytes accepted by the failing Write
 	pong     bool // follow-up phase: answer every read with Pong once the script is exhausted
+	busy     []byte // free runs: once the script is exhausted the server keeps sending this packet, one per millisecond
 	touched  int  // Read+Write+SetDeadline calls in the follow-up phase
 
 	// outbound
@@ -329,6 +330,18 @@ func (c *c04Conn) Read(p []byte) (int, error) {
 		}
 		if c.spos >= len(c.script) && c.pong {
 			n := copy(p, []byte{4})
+			return n, nil
+		}
+		if c.spos >= len(c.script) && c.busy != nil && c.phase == 1 {
+			b := c.busy
+			c.mu.Unlock()
+			time.Sleep(time.Millisecond)
+			c.mu.Lock()
+			if c.closed {
+				continue
+			}
+			n := copy(p, b)
+			c.rbuf = append(c.rbuf, b[n:]...)
 			return n, nil
 		}
 		if !c.rdl.IsZero() {
